@@ -644,6 +644,11 @@ impl ConnState {
 
     // run pong timeout process - that send timeout aftet some time.
     pub(super) fn run_pong_timeout(&mut self, config: &MainConfig) {
+        // if client still did not answer for previous ping then its timeout is still
+        // running - do not replace it (a replaced notifier cancels that timeout).
+        if self.pong_notifier.is_some() {
+            return;
+        }
         let (pong_notifier, pong_receiver) = oneshot::channel();
         self.pong_notifier = Some(pong_notifier);
         tokio::spawn(pong_client_timeout(
